@@ -170,6 +170,12 @@ class Evaluator:
             return self.call(n)
         if isinstance(n, (ast.ListComp, ast.GeneratorExp)):
             return self.comprehension(n, 0, [])
+        if isinstance(n, ast.SetComp):
+            return set(self.comprehension(n, 0, []))
+        if isinstance(n, ast.Set):
+            return {self.ev(x) for x in n.elts}
+        if isinstance(n, ast.Dict) and all(k is not None for k in n.keys):
+            return {self.ev(k): self.ev(v) for k, v in zip(n.keys, n.values)}
         if isinstance(n, ast.Attribute) and not (isinstance(n.value, ast.Name) and n.value.id not in self.env):
             try:
                 base = self.ev(n.value)
@@ -209,6 +215,8 @@ class Evaluator:
                 raise           # part of the evaluated behaviour (next() on an exhausted iterator, int('x') ...)
             except Exception as e:      # pylint: disable=broad-except
                 raise Unsupported('%s: %s' % (ast.unparse(n), e))
+        if isinstance(n.func, ast.Name) and n.func.id in self.env and isinstance(self.env[n.func.id], Native) and callable(self.env[n.func.id]):
+            return self.env[n.func.id](*args, **kwargs)
         if isinstance(n.func, ast.Attribute):
             base = self.ev(n.func.value)
             for t, m in METHODS:
